@@ -689,6 +689,8 @@ def macro_strategy(tier):
             "split": st.lists(st.booleans(), min_size=6, max_size=6),
             "empty": st.sampled_from([False] * 14 + [True]),
             "missing": st.sampled_from(["none", "none", "absent", "otherSuffix", "unknownName"]),
+            "multLib": st.sampled_from(["none", "variant", "variant", "variant", "lacking"]),
+            "multVariant": st.integers(1, 3),
             "minDens": st.sampled_from([0.0, 1e-13, 1e-3, 1e-3]),
             "trace": st.integers(0, 5),  # with minDens 1e-3 this nuclide is present at 2.5e-4
             "realBlock": st.booleans(),
@@ -836,6 +838,33 @@ def macro_execute(case):
                           lambda d: xc.computeMacroscopicGroupConstants("fission", d, lib, suffix, libType="micros",
                                                                         multConstant="neutronsPerFission"),
                           src_arr(lambda i: iso[i].micros.fission), src_arr(lambda i: iso[i].micros.neutronsPerFission)))
+        # ---- multipliers taken from a second library (multLib): same nuclides and groups, other nu / efiss / ecapt
+        mode = case.get("multLib", "none")
+        if mode != "none":
+            mnucs = L.spec_labels(specs[0])[0]
+            if mode == "lacking" and len(mnucs) >= 2:
+                mnucs = mnucs[:-1]
+            mspec = dict(specs[0], nucs=mnucs, multVariant=case.get("multVariant", 1), scale=(case["scales"][0] + 1) % 4)
+            mpath = _files([mspec], "xm")[0]
+            paths.append(mpath)
+            mlib = L.reader("iso")(mpath)
+            mref = L.reader("iso")(mpath)
+            have = [lab in mref for lab in labels]
+            out.label("multLib:" + ("lacking-nuclide" if not all(have) else "all-nuclides"))
+            # (a nuclide that multLib lacks is skipped without an error: "not in multiplier library" debug message)
+
+            def mult_of(getter):
+                return [np.asarray(getter(mref[lab]), dtype=float) * 1.0 if h else np.asarray(0.0) for lab, h in zip(labels, have)]
+
+            for tag, rx, mc_, getter in (
+                ("nuSigF", "fission", "neutronsPerFission", lambda x: x.micros.neutronsPerFission),
+                ("fissionEnergy", "fission", "efiss", lambda x: x.isotxsMetadata["efiss"]),
+                ("captureEnergy", "nGamma", "ecapt", lambda x: x.isotxsMetadata["ecapt"]),
+            ):
+                constants.append((tag + ".multLib",
+                                  lambda d, rx=rx, mc_=mc_: xc.computeMacroscopicGroupConstants(
+                                      rx, d, lib, suffix, libType="micros", multConstant=mc_, multLib=mlib),
+                                  src_arr(lambda i, rx=rx: getattr(iso[i].micros, rx)), mult_of(getter)))
         efiss = [float(x.isotxsMetadata["efiss"]) for x in iso]
         ecapt = [float(x.isotxsMetadata["ecapt"]) for x in iso]
         constants.append(("fissionEnergy", lambda d: xc.computeFissionEnergyGenerationConstants(d, lib, suffix),
